@@ -1,6 +1,7 @@
 import BppProofs.Lemmas.Hmm
 import BppProofs.Lemmas.HmmCache
 import BppProofs.Lemmas.HmmAuto
+import BppProofs.Lemmas.HmmLogPost
 /-!
 # C13 — HMM likelihood algorithms   (src/Bpp/Numeric/Hmm)
 
@@ -118,6 +119,17 @@ theorem site_likelihood_consistent (p : Params ℝ) (hp : NonNegP p) (e0 : Emis 
     siteLik p row e = ((List.zipWith (fun x y => x * y) row (vec p.n e)).sum) ∧ lo ≤ siteLik p row e ∧ siteLik p row e ≤ hi := by
   obtain ⟨h1, h2, h3⟩ := (posterior_prob p hp e0 he0 es hes bps hv hpos).2 row hrow
   exact ⟨by unfold siteLik dot; rw [sumL_eq_sum], siteLik_bounds p row h3 h1 h2 e lo hi he⟩
+
+/-- log-sum class: for strictly positive tables and valid break points
+`getHiddenStatesPosteriorProbabilities` never reads past `partialLogLikelihoods_` (the model's
+`none`), returns one row per position, and each row `exp(f + b − partial)` is a probability vector -/
+theorem logsum_posterior_prob (p : Params ℝ) (hn : 0 < p.n) (hp : PosP p) (e0 : Emis ℝ) (he0 : PosE e0)
+    (es : List (Emis ℝ)) (hes : ∀ e ∈ es, PosE e) (bps : List Nat) (hv : ValidBreaks (es.length + 1) bps)
+    (dE d2E : String → Emis ℝ × List (Emis ℝ)) :
+    ∃ m, logPosterior { p := p, e0 := e0, es := es, dE := dE, d2E := d2E } bps = some m
+      ∧ m.length = es.length + 1
+      ∧ ∀ row ∈ m, (∀ x ∈ row, 0 ≤ x) ∧ row.sum = 1 ∧ row.length = p.n :=
+  logPosterior_prob p hn hp e0 he0 es hes bps hv dE d2E
 
 /-- outside that domain the code does not validate its argument: for the break-point vector `[0]`
 on three positions the forward pass resets at position 1 while the backward pass never resets
